@@ -100,6 +100,15 @@ theorem routes_wrapped :
     client claimed in a header. -/
 theorem wrappers_pass_request_unchanged : wrapperRequestWrites = [] := by decide +kernel
 
+/-- **session_key_encapsulated** (C19): the model's `myKey` — the process' cookie key pair — is private to the
+    gate. In shovel/web/web.go the session configuration holding it is touched in exactly four places: `New`
+    appends the freshly generated key, `Login` sets the cookie attributes and mints through `session.Set`,
+    `Authn` verifies through `session.Get`. No handler (open or protected) reads the key, so no response can
+    carry either half of it and a cookie `Authn` accepts can only have been minted by `Login`. -/
+theorem session_key_encapsulated :
+    sessUses = ["New: h.sess.Keys", "Authn: session.Get", "Login: h.sess.Cookie", "Login: session.Set"] := by
+  decide +kernel
+
 /-! non-vacuity -/
 example : wrappers ≠ [] := by decide
 example : authn ⟨false, true, ⟩ 7 true .none = .redirectLogin := by decide
